@@ -362,6 +362,47 @@ func (x *ExprEnv) call(n *ast.CallExpr) tval {
 			}
 			d, _, _ := e.mapHeaps(u)
 			return tval{t: "(and (not (= " + m.t + " 0)) " + e.sel(e.view(x.st, d), d, Loc{m.t, k.t}) + ")", typ: bt}
+		case "forallkey":
+			// forallkey(k, m, body): for every key k of map m
+			v, ok := n.Args[0].(*ast.Ident)
+			if !ok || len(n.Args) != 3 {
+				return x.errf("forallkey(k, m, body)")
+			}
+			m := x.tr(n.Args[1])
+			mu, ok := m.typ.Underlying().(*types.Map)
+			if !ok {
+				return x.errf("forallkey over non-map %s", m.typ)
+			}
+			qn := e.fresh("q_" + v.Name)
+			saved, had := x.vars[v.Name]
+			x.vars[v.Name] = tval{t: qn, typ: mu.Key()}
+			e.quant++
+			d, _, _ := e.mapHeaps(mu)
+			dom := "(and (not (= " + m.t + " 0)) " + e.sel(e.view(x.st, d), d, Loc{m.t, qn}) + ")"
+			body := x.tr(n.Args[2])
+			e.quant--
+			if had {
+				x.vars[v.Name] = saved
+			} else {
+				delete(x.vars, v.Name)
+			}
+			return tval{t: fmt.Sprintf("(forall ((%s %s)) (=> %s %s))", qn, e.d.sortOf(mu.Key()), dom, body.t), typ: bt}
+		case "sametype":
+			a, b := x.tr(n.Args[0]), x.tr(n.Args[1])
+			return tval{t: "(= (itag " + a.t + ") (itag " + b.t + "))", typ: bt}
+		case "as":
+			// as(x, "pkg.Type"): the value of dynamic type pkg.Type held by interface x
+			a := x.tr(n.Args[0])
+			lit, ok := n.Args[1].(*ast.BasicLit)
+			if !ok {
+				return x.errf("as(x, \"type\")")
+			}
+			sname, _ := strconv.Unquote(lit.Value)
+			t, err := e.spec.parseType(sname)
+			if err != nil {
+				return x.errf("%v", err)
+			}
+			return tval{t: e.unbox(t, "(ival "+a.t+")"), typ: t}
 		case "forall", "exists":
 			// forall(i, lo, hi, body)
 			v, ok := n.Args[0].(*ast.Ident)
